@@ -32,10 +32,14 @@ type cacheModel struct {
 	// non-hermetic targets: the epoch at which the result this machine holds for a key was
 	// produced ("?" = unknown after faults / uncertain recordings)
 	nhLast map[string]string
+	// uncL: the same uncertainty per loose key (grog's key covers output-less dependencies and
+	// their platform): a later certain recording under another loose variant of the same
+	// strict key must not clear it
+	uncL map[string]bool
 }
 
 func newCacheModel() *cacheModel {
-	return &cacheModel{strict: map[string]bool{}, loose: map[string]bool{}, taint: map[string]bool{}, taintUnc: map[string]bool{}, produced: map[string]map[string]*semState{}, unc: map[string]bool{}, depUnc: map[string]bool{}, nhLast: map[string]string{}}
+	return &cacheModel{strict: map[string]bool{}, loose: map[string]bool{}, taint: map[string]bool{}, taintUnc: map[string]bool{}, produced: map[string]map[string]*semState{}, unc: map[string]bool{}, depUnc: map[string]bool{}, nhLast: map[string]string{}, uncL: map[string]bool{}}
 }
 
 // semState is the semantic state of a target at the time one of its executions produced a
@@ -469,6 +473,9 @@ func (w *wbuild) Drive(s *simrt.Sched, out *RunResult) {
 			for k := range cm.strict {
 				cm.unc[k] = true
 			}
+			for k := range cm.loose {
+				cm.uncL[k] = true
+			}
 			cs.History = append(cs.History, HistOp{Op: "cache-damage", Note: note})
 			shapeParts = append(shapeParts, "damage")
 			if drift {
@@ -870,7 +877,7 @@ func (w *wbuild) checkBuild(res *InvResult, req BuildReq, opts InvOpts, cm *cach
 		// may not have been consumed; the follow-up builds decide (C07: next build satisfies C01)
 		for _, e := range res.Events {
 			if e.Kind == "cmd" && u.Specs[e.Label] != nil {
-				cm.unc[ev.Strict(e.Label)] = true
+				cm.markUnc(ev, e.Label)
 				if cm.taint[e.Label] {
 					cm.taintUnc[e.Label] = true
 				}
@@ -991,7 +998,7 @@ func (w *wbuild) checkBuild(res *InvResult, req BuildReq, opts InvOpts, cm *cach
 					// because of an injected fault / a lost blob) on behalf of ONE dependant; if that
 					// re-run fails, only this dependant fails, the dependency's own node stays a cache
 					// hit and its other dependants may proceed
-					cm.unc[ev.Strict(l)] = true
+					cm.markUnc(ev, l)
 				} else {
 					report("C05", "built-despite-failed-dependency", "wbuild", l+" executed although a dependency failed or was skipped")
 				}
@@ -1016,14 +1023,14 @@ func (w *wbuild) checkBuild(res *InvResult, req BuildReq, opts InvOpts, cm *cach
 			reason = "tainted"
 		case checkFails:
 			reason = "output-check-failing"
-		case cm.unc[kS] || cm.depUnc[kS] || depClobbered(sp) || w.dirInWay[l] || cm.taintUnc[l] || faulted || w.depToggled(u, sp):
+		case cm.unc[kS] || cm.uncL[kL] || cm.depUnc[kS] || depClobbered(sp) || w.dirInWay[l] || cm.taintUnc[l] || faulted || w.depToggled(u, sp):
 		case !cm.strict[kS]:
 			reason = "no-result-for-current-state"
 		}
 		verdict := "may"
 		if reason != "" {
 			verdict = "must"
-		} else if !cm.unc[kS] && !cm.depUnc[kS] && !depClobbered(sp) && !w.dirInWay[l] && !cm.taintUnc[l] && !faulted && !w.depToggled(u, sp) && cm.loose[kL] {
+		} else if !cm.unc[kS] && !cm.uncL[kL] && !cm.depUnc[kS] && !depClobbered(sp) && !w.dirInWay[l] && !cm.taintUnc[l] && !faulted && !w.depToggled(u, sp) && cm.loose[kL] {
 			verdict = "mustnot"
 		}
 		// model outcome of an execution
@@ -1094,6 +1101,7 @@ func (w *wbuild) checkBuild(res *InvResult, req BuildReq, opts InvOpts, cm *cach
 					cm.strict[kS] = true
 					cm.loose[kL] = true
 					delete(cm.unc, kS)
+					delete(cm.uncL, kL)
 					w.recordedNow[kS] = true
 					if sp.NonHermetic {
 						e := ext0["epoch"]
@@ -1116,8 +1124,8 @@ func (w *wbuild) checkBuild(res *InvResult, req BuildReq, opts InvOpts, cm *cach
 						delete(cm.depUnc, kS)
 					}
 				}
-				if faulted && cm.taint[l] {
-					cm.taintUnc[l] = true // the taint removal may have been hit by the fault
+				if (faulted || signalled) && cm.taint[l] {
+					cm.taintUnc[l] = true // the taint removal may have been hit by the fault / cut short by the interrupt
 				} else if w.mode == "remote" && cm.taint[l] {
 					// the marker lives in two stores (this machine's and the remote); which of them an
 					// execution clears depends on the machine and on whether the remote was
@@ -1156,7 +1164,7 @@ func (w *wbuild) checkBuild(res *InvResult, req BuildReq, opts InvOpts, cm *cach
 		// recorded; nothing was required to run to completion
 		for _, l := range order {
 			if executed[l] > 0 {
-				cm.unc[ev.Strict(l)] = true
+				cm.markUnc(ev, l)
 				if cm.taint[l] {
 					cm.taintUnc[l] = true
 				}
@@ -1197,7 +1205,7 @@ func (w *wbuild) checkBuild(res *InvResult, req BuildReq, opts InvOpts, cm *cach
 		// run, and results of targets that did run may or may not have reached the cache
 		for _, l := range order {
 			if executed[l] > 0 {
-				cm.unc[ev.Strict(l)] = true
+				cm.markUnc(ev, l)
 			}
 		}
 	} else {
@@ -1405,4 +1413,9 @@ func (w *wbuild) depToggled(u *Universe, sp *Spec) bool {
 		}
 	}
 	return false
+}
+
+func (cm *cacheModel) markUnc(ev *Eval, l string) {
+	cm.unc[ev.Strict(l)] = true
+	cm.uncL[ev.Loose(l)] = true
 }
